@@ -45,7 +45,7 @@ META = {
                 text="Real pthreads serialised by a futex hand-off scheduler with scheduling points at every global-lock operation and I/O wait; all schedules with <=2/3 preemptions of 2-3 API threads plus an I/O thread, callbacks re-entering the API; invariants: lock ownership on entry to every *_lkd function (via -finstrument-functions), no deadlock/livelock, lock free at the end; the library is compiled twice, with the configuration headers each of the repository's two build systems emits on the current tree (CMake configure: plain lock; autogen.sh + ./configure defaults: the recursive-check lock variant), and the whole exploration runs on both.",
                 note="Sequential consistency assumed; scheduling points at lock operations, inside callbacks, I/O waits and a sleep operation; unsynchronised accesses inside correctly locked code are not looked for (the TSan pass of the design was not built); all callback kinds incl. ping/pong/cache/release/persistence call-outs re-enter the API."),
     "C14": dict(engine="vx-inproc", technique="exhaustive product enumeration and exhaustive enumeration of exchange sequences (Observe register/cancel on two tokens) differential against an independent RFC 8613 implementation, exhaustive single-bit tampering",
-                text="Full product of message shapes x security contexts x partial IVs: libcoap's protected output must equal an independent RFC 8613 implementation (OpenSSL AES-CCM/HKDF, validated on the Appendix C vectors) byte for byte and unprotect to the original; every single-bit flip and truncation of the protected part and every one-parameter context change must be rejected. Stage c14seq: all histories (depth 5/6) of GET / Observe register / cancel on two tokens and resource changes against a real libcoap OSCORE server, and (depth 4/5) the same with tampered, replayed and unknown-kid datagrams in between: every response and notification must verify under the binding of the right request, rejected datagrams never reach a handler.",
+                text="Full product of message shapes x security contexts (ids 0-7 bytes, ID Context absent / 1 / 8 / 23 / 24 / 25 / 40 bytes, salt, secret) x partial IVs: libcoap's protected output must equal an independent RFC 8613 implementation (OpenSSL AES-CCM/HKDF, validated on the Appendix C vectors) byte for byte and unprotect to the original; every single-bit flip and truncation of the protected part and every one-parameter context change must be rejected. Stage c14seq: all histories (depth 5/6) of GET / Observe register / cancel on two tokens and resource changes against a real libcoap OSCORE server, and (depth 4/5) the same with tampered, replayed and unknown-kid datagrams in between: every response and notification must verify under the binding of the right request, rejected datagrams never reach a handler.",
                 note="Trusted: OpenSSL primitives, ref/refoscore.c validated by RFC 8613 Appendix C vectors."),
     "C15": dict(engine="vx-inproc", technique="explicit-state BFS over delivery histories on a real recipient context against a set-based replay-window reference; exhaustive crash-point enumeration on the sender",
                 text="All histories up to depth 4/6 over fresh(gap)/late/replay/forge deliveries to a real OSCORE recipient context for several window sizes and B.1.2 on/off: at-most-once acceptance, forgeries leave state and all depth-1 continuations unchanged; sender: every crash point between save callbacks for several ssn_freq, no partial IV reuse across restarts.",
